@@ -97,7 +97,8 @@ def logger_variants(observer=None):
     import copy
     sc = base_family(observer)
     out = {}
-    for base, kind in (("A_noexec_then_exec", "sized"), ("H_ttl_and_self_trade", "sized"), ("A_noexec_then_exec", "none"),
+    for base, kind in (("A_noexec_then_exec", "sized"), ("H_ttl_and_self_trade", "sized"), ("H_ttl_and_self_trade", "layered"),
+                       ("M_three_markets_index", "layered"), ("A_noexec_then_exec", "none"),
                        ("M_three_markets_index", "none"), ("N_halt_in_mid_step", "none")):
         s2 = copy.copy(sc[base])
         s2.name = "%s:%s_logger" % (base, "no" if kind == "none" else kind)
